@@ -123,7 +123,15 @@ def _build(C, f64=False, dates=None):
                    _scalar32(C["start"]), Flags(C["flag"]), Data3dBlockFormat(C["fmt"]))
         if C["fmt"] in (1, 3) and (C.get("links") or C.get("links_attr")):
             from basictdf.tdfData3D import LinkType
-            b.links = np.array([tuple(x) for x in C["links"]], dtype=LinkType.btype)
+            how = C.get("links_as", "struct")
+            if how == "tuples" and C["links"]:
+                b.links = [tuple(x) for x in C["links"]]  # a plain list of pairs
+            elif how == "lists" and C["links"]:
+                b.links = [list(x) for x in C["links"]]
+            elif how == "array" and C["links"]:
+                b.links = np.array(C["links"], dtype=np.int64 if max(map(max, C["links"])) < 2**31 else np.uint32)  # (n, 2)
+            else:
+                b.links = np.array([tuple(x) for x in C["links"]], dtype=LinkType.btype)
         for tr in C["tracks"]:
             b.add_track(MarkerTrack(tr["label"], _rows(tr["mask"], tr["data"], 3, f64)))
     elif t == "emg":
@@ -200,7 +208,14 @@ def _build(C, f64=False, dates=None):
     return b
 
 
-def stamp(block, cdate, mdate):
+def stamp(block, cdate, mdate, aware=None):
+    """aware: minutes east of UTC - the dates are given as timezone-aware datetimes in that zone
+    (the same instants; the library stores instants)."""
+    if aware is not None:
+        tz = _dt.timezone(_dt.timedelta(minutes=aware))
+        block.creation_date = _dt.datetime.fromtimestamp(int(cdate), tz)
+        block.last_modification_date = _dt.datetime.fromtimestamp(int(mdate), tz)
+        return block
     block.creation_date = _date(cdate)
     block.last_modification_date = _date(mdate)
     return block
@@ -364,14 +379,14 @@ def diff(exp, act, path="", out=None, limit=6):
         return out
     if isinstance(exp, dict) and isinstance(act, dict):
         for k in exp:
-            if k in ("links_attr",):
+            if k in ("links_attr", "links_as"):
                 continue
             if k not in act:
                 out.append((f"{path}.{k}", _short(exp[k]), "<missing>"))
             else:
                 diff(exp[k], act[k], f"{path}.{k}", out, limit)
         for k in act:
-            if k not in exp and k not in ("links_attr",):
+            if k not in exp and k not in ("links_attr", "links_as"):
                 out.append((f"{path}.{k}", "<missing>", _short(act[k])))
     elif isinstance(exp, list) and isinstance(act, list):
         if len(exp) != len(act):
